@@ -35,6 +35,17 @@ def _source(name):
 
     from odc.geo.geobox import GeoBox
 
+    if name.startswith("gcp_"):
+        # a raster registered by ground control points (exactly affine ones), then rescaled: its pixel size is what pix2wld says, twice the original
+        import numpy as np
+
+        from odc.geo.gcp import GCPGeoBox, GCPMapping
+
+        crs, (x0, y0), res, shape, _ = SRC[name[4:].replace("_zoomed", "_tile")]
+        A0 = Affine(res, 0, x0, 0, -res, y0 + res * shape[0])
+        pix = np.array([[0, 0], [shape[1], 0], [shape[1], shape[0]], [0, shape[0]], [7, 11], [23, 31], [30, 5]], dtype="float64")
+        wld = np.array([A0 * tuple(p) for p in pix])
+        return GCPGeoBox(shape, GCPMapping(pix, wld, crs)).zoom_out(2)
     crs, (x0, y0), res, shape, rot = SRC[name]
     rx, ry = res if isinstance(res, tuple) else (res, res)
     g = GeoBox(shape, Affine(rx, 0, x0, 0, -ry, y0 + ry * shape[0]), crs)
@@ -70,7 +81,7 @@ def execute(c):
         if o["anchor"] != "default":
             kw["anchor"] = o["anchor"] if o["anchor"] in ("center", "edge") else xy_(0.25, 0.75)
         # resolved target CRS (independent of the code under test for fixed EPSG targets)
-        how = (len(json.dumps(c)) + len(c["source"])) % 3
+        how = (len(json.dumps(c)) + len(c["source"])) % 3 if not c["source"].startswith("gcp_") else 0
         if o["shape"] == "pair":
             kw["shape"] = tuple(c["shape"])
         elif o["shape"] == "int":
@@ -129,6 +140,11 @@ def execute(c):
         if abs(A.b) < 1e-12 and abs(A.d) < 1e-12 and A.a != 0 and A.e != 0:
             oo["edge"] = [int(round(((A.c / abs(A.a)) % 1.0) * 1024)) % 1024, int(round(((A.f / abs(A.e)) % 1.0) * 1024)) % 1024]
             sr = src.resolution
+            if c["source"].startswith("gcp_"):
+                # measured through the pixel-to-world mapping, not read from the object
+                from odc.geo.types import resxy_
+                p00, p10, p01 = src.pix2wld(0.0, 0.0), src.pix2wld(1.0, 0.0), src.pix2wld(0.0, 1.0)
+                sr = resxy_(math.hypot(p10[0] - p00[0], p10[1] - p00[1]), -math.hypot(p01[0] - p00[0], p01[1] - p00[1]))
             oo["res_ratio"] = [int(round(abs(A.a) / abs(sr.x) * 1e6)) if abs(A.a) / abs(sr.x) < 2000 else -1, int(round(abs(A.e) / abs(sr.y) * 1e6)) if abs(A.e) / abs(sr.y) < 2000 else -1]
             oo["square"] = bool(abs(abs(A.a) - abs(A.e)) <= 1e-9 * abs(A.a))
             if o["res"] in ("explicit", "coarse") and o["shape"] == "none":
@@ -139,8 +155,11 @@ def execute(c):
                   [(w * i / 4, h * j / 4) for i in range(1, 4) for j in range(1, 4)]
             px = np.array([p[0] for p in pts], dtype="float64")
             py = np.array([p[1] for p in pts], dtype="float64")
-            SA = src.affine
-            wx, wy = SA.a * px + SA.b * py + SA.c, SA.d * px + SA.e * py + SA.f
+            if c["source"].startswith("gcp_"):
+                wx, wy = (np.asarray(v, dtype="float64") for v in src.pix2wld(px, py))
+            else:
+                SA = src.affine
+                wx, wy = SA.a * px + SA.b * py + SA.c, SA.d * px + SA.e * py + SA.f
             if not same_crs:
                 tr = pyproj.Transformer.from_crs(src.crs.proj, dst_crs.proj, always_xy=True)
                 wx, wy = tr.transform(wx, wy)
